@@ -66,7 +66,7 @@ def main():
         return " ".join(f"{int(s)} {int(e)}" for s, e in rs)
 
     reqs, reals, metas = [], [], []
-    nA = 4000 if not ck.thorough else 60000
+    nA = 6000 if not ck.thorough else 80000
     for i in range(nA):
         span = rng.choice([8, 20, 64, 1000])
         a, b = rand_rangeset(rng.choice([0, 1, 2, 3, 6, 12]), span), rand_rangeset(rng.choice([0, 1, 2, 3, 6, 12]), span)
@@ -178,7 +178,7 @@ def main():
                         mat[i][j] = True
                 for md, mk in ((1, 2), (2, 2), (1, 1), (2, 3)):
                     casesB.append(("".join(kinds), mat, md, mk))
-    nB = 6000 if not ck.thorough else 120000
+    nB = 20000 if not ck.thorough else 300000
     for _ in range(nB):
         n = rng.choice([5, 6, 7, 8, 8, 10, 12, 16, 24])
         kinds = "".join(rng.choice("DK") for _ in range(n))
@@ -262,7 +262,7 @@ def main():
         return out
 
     lists = fixed_lists()
-    nC = 700 if not ck.thorough else 9000
+    nC = 2400 if not ck.thorough else 24000
     for i in range(nC):
         acc = accs[i % len(accs)]
         g = c04_gen.OpGen(rng, api, npu_accs[acc], archs[acc], arena=rng.choice([1 << 12, 1 << 14, 1 << 16]))
@@ -326,6 +326,7 @@ def main():
         return c04_gen.classify_blockjobs(msg, c04_gen.fixed_blockdeps(archs[acc], ops))
 
     seen_kinds = set()
+    reportedC = 0
     for i, kind, msg in specfailC:
         keys = known_keys(i, msg) if kind == "blockjobs" else None
         if keys:
@@ -333,9 +334,11 @@ def main():
                 ck.count("C_known_" + key)
                 ck.violation(f"BLOCKDEP too large [{key}] ({ownersC[i][0].value}, {ownersC[i][2]}): {msg[:200]}", replayC(i), key=key)
             continue
-        if (kind, msg[:40]) in seen_kinds and len(seen_kinds) > 4:
+        if reportedC >= 6 or ((kind, msg[:30]) in seen_kinds):
+            ck.count("C_spec_rejections_not_listed")
             continue
-        seen_kinds.add((kind, msg[:40]))
+        seen_kinds.add((kind, msg[:30]))
+        reportedC += 1
         acc, ops, tag = ownersC[i]
         if kind == "hazard":
             ck.violation(f"emitted stream allows a cross-queue hazard ({acc.value}, {len(ops)} ops, {tag}): first={msg}", replayC(i))
@@ -354,7 +357,7 @@ def main():
     # D. streams of compiled networks
     import pipe_common
 
-    nD = 36 if not ck.thorough else 600
+    nD = 48 if not ck.thorough else 700
     outsD = pipe_common.run_corpus(ck, nD, want={"stream": True, "extra": c04_gen.pipeline_extra})
     reqsD, ownersD = [], []
     for o in outsD:
@@ -372,6 +375,7 @@ def main():
     ansD = ck.model(reqsD) if reqsD else []
     evaluations += len(reqsD)
     programs = 0
+    reportedD = 0
     for (o, si), ans, rq in zip(ownersD, ansD, reqsD):
         d = kv(ans)
         programs += 1
@@ -393,7 +397,11 @@ def main():
         if d.get("explore") not in ("skip", d.get("lazy")):
             raise common.InfraError(f"closed-form checker and explorer disagree on a pipeline stream: {ans[:300]}")
         if d.get("lazy") != "1":
-            ck.violation(f"compiled network {o['idx']} ({o['profile']} {o.get('opts')}): cross-queue hazard, first={d.get('first')}", rep)
+            reportedD += 1
+            if reportedD <= 6:
+                ck.violation(f"compiled network {o['idx']} ({o['profile']} {o.get('opts')}): cross-queue hazard, first={d.get('first')}", rep)
+            else:
+                ck.count("D_spec_rejections_not_listed")
         if d.get("blockjobs", "0") != "0":
             msg = ans.split("blockjobs=", 1)[1][:3000]
             fixed = (o.get("extra") or [])[si] if si < len(o.get("extra") or []) else {}
@@ -404,8 +412,12 @@ def main():
                     ck.count("D_known_" + key)
                     ck.violation(f"compiled network {o['idx']} ({o['profile']} {o.get('opts')}): BLOCKDEP too large [{key}]: {msg[:300]}", rep, key=key)
             else:
-                ck.violation(f"compiled network {o['idx']} ({o['profile']} {o.get('opts')}): BLOCKDEP allows a read-after-write overlap: "
-                             + msg[:300], rep)
+                reportedD += 1
+                if reportedD <= 6:
+                    ck.violation(f"compiled network {o['idx']} ({o['profile']} {o.get('opts')}): BLOCKDEP allows a read-after-write overlap: "
+                                 + msg[:300], rep)
+                else:
+                    ck.count("D_spec_rejections_not_listed")
     if ansD:
         ck.sample({"D_network": ownersD[0][0].get("desc"), "opts": ownersD[0][0].get("opts"), "answer": ansD[0][:200]})
 
